@@ -220,7 +220,7 @@ get_text_gray_cmyk_row(j_compress_ptr cinfo, cjpeg_source_ptr sinfo)
   } else {
     for (col = cinfo->image_width; col > 0; col--) {
       _JSAMPLE gray = rescale[read_pbm_integer(cinfo, infile, maxval)];
-      rgb_to_cmyk(maxval, gray, gray, gray, ptr, ptr + 1, ptr + 2, ptr + 3);
+      rgb_to_cmyk((1 << cinfo->data_precision) - 1, gray, gray, gray, ptr, ptr + 1, ptr + 2, ptr + 3);
       ptr += 4;
     }
   }
@@ -298,7 +298,7 @@ get_text_rgb_cmyk_row(j_compress_ptr cinfo, cjpeg_source_ptr sinfo)
       _JSAMPLE r = rescale[read_pbm_integer(cinfo, infile, maxval)];
       _JSAMPLE g = rescale[read_pbm_integer(cinfo, infile, maxval)];
       _JSAMPLE b = rescale[read_pbm_integer(cinfo, infile, maxval)];
-      rgb_to_cmyk(maxval, r, g, b, ptr, ptr + 1, ptr + 2, ptr + 3);
+      rgb_to_cmyk((1 << cinfo->data_precision) - 1, r, g, b, ptr, ptr + 1, ptr + 2, ptr + 3);
       ptr += 4;
     }
   }
@@ -389,7 +389,7 @@ get_gray_cmyk_row(j_compress_ptr cinfo, cjpeg_source_ptr sinfo)
   } else {
     for (col = cinfo->image_width; col > 0; col--) {
       _JSAMPLE gray = rescale[UCH(*bufferptr++)];
-      rgb_to_cmyk(maxval, gray, gray, gray, ptr, ptr + 1, ptr + 2, ptr + 3);
+      rgb_to_cmyk((1 << cinfo->data_precision) - 1, gray, gray, gray, ptr, ptr + 1, ptr + 2, ptr + 3);
       ptr += 4;
     }
   }
@@ -462,7 +462,7 @@ get_rgb_cmyk_row(j_compress_ptr cinfo, cjpeg_source_ptr sinfo)
       _JSAMPLE r = rescale[UCH(*bufferptr++)];
       _JSAMPLE g = rescale[UCH(*bufferptr++)];
       _JSAMPLE b = rescale[UCH(*bufferptr++)];
-      rgb_to_cmyk(maxval, r, g, b, ptr, ptr + 1, ptr + 2, ptr + 3);
+      rgb_to_cmyk((1 << cinfo->data_precision) - 1, r, g, b, ptr, ptr + 1, ptr + 2, ptr + 3);
       ptr += 4;
     }
   }
@@ -569,7 +569,7 @@ get_word_gray_cmyk_row(j_compress_ptr cinfo, cjpeg_source_ptr sinfo)
     gray |= UCH(*bufferptr++);
     if (gray > maxval)
       ERREXIT(cinfo, JERR_PPM_OUTOFRANGE);
-    rgb_to_cmyk(maxval, rescale[gray], rescale[gray], rescale[gray], ptr,
+    rgb_to_cmyk((1 << cinfo->data_precision) - 1, rescale[gray], rescale[gray], rescale[gray], ptr,
                 ptr + 1, ptr + 2, ptr + 3);
     ptr += 4;
   }
@@ -651,7 +651,7 @@ get_word_rgb_cmyk_row(j_compress_ptr cinfo, cjpeg_source_ptr sinfo)
     b |= UCH(*bufferptr++);
     if (b > maxval)
       ERREXIT(cinfo, JERR_PPM_OUTOFRANGE);
-    rgb_to_cmyk(maxval, rescale[r], rescale[g], rescale[b], ptr, ptr + 1,
+    rgb_to_cmyk((1 << cinfo->data_precision) - 1, rescale[r], rescale[g], rescale[b], ptr, ptr + 1,
                 ptr + 2, ptr + 3);
     ptr += 4;
   }
